@@ -100,6 +100,10 @@ def set_restraints(topology, nonbond_matrix):
     for mol_name, mol_idx in topology.distance_restraints:
         distance_restraints = topology.distance_restraints[(mol_name, mol_idx)]
         mol = topology.molecules[mol_idx]
+        # the [ molecule ] block of a build file only applies to the molecules
+        # that carry its name; an index in its range is not enough
+        if mol.mol_name != mol_name:
+            continue
 
         for ref_node, target_node in distance_restraints:
             path = list(mol.search_tree.edges)
